@@ -51,7 +51,8 @@ type Stmt struct {
 	Inner    []Stmt `json:"inner,omitempty"`
 }
 
-// Method kinds: "normal", "getter", "setter", "abstract" (no body).
+// Method kinds: "normal", "getter", "setter", "abstract" (no body); in interfaces also
+// "default" and "static" (interface methods with a body, written like a normal method).
 type Method struct {
 	Kind      string `json:"kind"`
 	Name      string `json:"name"`
@@ -64,6 +65,10 @@ type Method struct {
 	BraceNext bool   `json:"braceNext,omitempty"`
 	SplitHead bool   `json:"splitHead,omitempty"` // modifiers and return type on one line, name and parameters on the next
 	Body      []Stmt `json:"body,omitempty"`
+	// widening w4 (all optional, so that older replay files still load)
+	Varargs    bool `json:"varargs,omitempty"`    // the last of the Params parameters is written `String... rest`
+	WrapParams int  `json:"wrapParams,omitempty"` // 0 one line; 1 a continuation line after every third parameter; 2 one parameter per line, ")" on a line of its own
+	RichParams bool `json:"richParams,omitempty"` // annotated / nested-generic parameter types (commas inside annotations and type arguments)
 }
 
 type File struct {
@@ -81,6 +86,10 @@ type File struct {
 	Fields      int      `json:"fields,omitempty"`
 	Constructor int      `json:"constructor,omitempty"` // 0 none, k = constructor with k-1 parameters
 	Methods     []Method `json:"methods"`
+	// widening w4
+	CRLF      bool `json:"crlf,omitempty"`      // Windows line ends
+	ClassMods int  `json:"classMods,omitempty"` // 0 public; 1 package-private; 2 public final; 3 @Deprecated on its own line; 4 @SuppressWarnings("unused") on the declaration line; 5 generic type parameter
+	InitBlock int  `json:"initBlock,omitempty"` // 0 none; 1 static initialiser, 2 instance initialiser: long, full of ifs, one tall condition - not a method
 }
 
 type Case struct {
@@ -88,6 +97,9 @@ type Case struct {
 	Ignore []string `json:"ignore"`
 	Sort   bool     `json:"sort"`
 	RelDir bool     `json:"relDir,omitempty"` // CLI: pass a relative -p
+	// widening w4
+	DirStyle  int `json:"dirStyle,omitempty"`  // CLI: 0 as RelDir says; 1 "./src"; 2 "src/"; 3 run inside src without -p (the default ".")
+	FlagStyle int `json:"flagStyle,omitempty"` // CLI: 0 `-x a,b -s type`; 1 `-x=a,b -s=type`; 2 `--ignore a,b --sort type`; 3 `--ignore=a,b --sort=type`
 }
 
 type SweepCase struct {
@@ -147,12 +159,66 @@ func (w *jw) fresh() int { w.v++; return w.v }
 
 var paramTypes = []string{"int", "String", "long", "List<String>", "boolean", "int[]", "Map<String, Integer>", "double", "final int", "Object"}
 
-func paramList(n int) string {
+// richParamTypes carry commas and parentheses that are not parameter separators.
+var richParamTypes = []string{"@Nonnull String", "final Map<String, List<Integer>>", "@Named(\"a, b\") int", "java.util.Optional<String>",
+	"@SuppressWarnings({\"x\", \"y\"}) Object", "int[][]", "final @Nonnull List<Map<String, Integer>>"}
+
+func paramDecls(n int, rich, varargs bool) []string {
 	var ps []string
 	for i := 0; i < n; i++ {
-		ps = append(ps, fmt.Sprintf("%s p%d", paramTypes[i%len(paramTypes)], i))
+		typ := paramTypes[i%len(paramTypes)]
+		if rich {
+			typ = richParamTypes[i%len(richParamTypes)]
+		}
+		if varargs && i == n-1 {
+			// a variable-arity parameter is a parameter like any other
+			ps = append(ps, fmt.Sprintf("String... p%d", i))
+			continue
+		}
+		ps = append(ps, fmt.Sprintf("%s p%d", typ, i))
 	}
-	return strings.Join(ps, ", ")
+	return ps
+}
+
+func paramList(n int) string { return strings.Join(paramDecls(n, false, false), ", ") }
+
+// signature writes `<prefix>(<parameters>)<suffix><tail>` over one or several lines and
+// returns the line the text starts on. wrap: 0 one line; 1 a continuation line after every
+// third parameter; 2 one parameter per line and ")" on a line of its own.
+func (w *jw) signature(depth int, prefix string, params []string, suffix string, wrap int, tail string) int {
+	if wrap == 0 || len(params) < 2 {
+		return w.ln(depth, prefix+"("+strings.Join(params, ", ")+")"+suffix+tail)
+	}
+	if wrap == 1 {
+		first := 0
+		for i := 0; i < len(params); i += 3 {
+			end := i + 3
+			if end > len(params) {
+				end = len(params)
+			}
+			text := strings.Join(params[i:end], ", ")
+			if end == len(params) {
+				text += ")" + suffix + tail
+			} else {
+				text += ","
+			}
+			if i == 0 {
+				first = w.ln(depth, prefix+"("+text)
+			} else {
+				w.ln(depth+2, text)
+			}
+		}
+		return first
+	}
+	first := w.ln(depth, prefix+"(")
+	for i, p := range params {
+		if i < len(params)-1 {
+			p += ","
+		}
+		w.ln(depth+2, p)
+	}
+	w.ln(depth, ")"+suffix+tail)
+	return first
 }
 
 func (w *jw) fill(depth, n int) {
@@ -305,9 +371,25 @@ func (w *jw) stmt(depth int, s Stmt, top bool, t *methodTruth) {
 		w.block(depth+1, s.Inner, t)
 		w.ln(depth, "}")
 	case "lambda":
-		w.ln(depth, fmt.Sprintf("Runnable r%d = () -> {", w.fresh()))
+		if s.N > 0 {
+			// explicitly typed lambda parameters: formal parameters that are not the method's
+			var ps []string
+			for i := 0; i < s.N; i++ {
+				ps = append(ps, fmt.Sprintf("%s a%d", []string{"int", "String", "Object"}[i%3], i))
+			}
+			w.ln(depth, fmt.Sprintf("Handler h%d = (%s) -> {", w.fresh(), strings.Join(ps, ", ")))
+		} else {
+			w.ln(depth, fmt.Sprintf("Runnable r%d = () -> {", w.fresh()))
+		}
 		w.block(depth+1, s.Inner, t)
 		w.ln(depth, "};")
+	case "comment":
+		// a block comment over N >= 2 lines
+		w.ln(depth, "/*")
+		for i := 2; i < s.N; i++ {
+			w.ln(depth, fmt.Sprintf(" * if (n0 > %d) { switch (n0) { default: break; } }", w.fresh()))
+		}
+		w.ln(depth, " */")
 	case "decoyline":
 		// a whole container on one line, holding N ifs / switches that must not count
 		var ifs, sws, chain strings.Builder
@@ -349,23 +431,26 @@ func (w *jw) method(depth int, m Method, inInterface bool) methodTruth {
 	if ret == "" {
 		ret = "void"
 	}
-	head := ret + " " + m.Name + "(" + paramList(m.Params) + ")"
+	params := paramDecls(m.Params, m.RichParams, m.Varargs)
+	prefix := ret + " " + m.Name
 	if m.Mods != "" {
-		head = m.Mods + " " + head
+		prefix = m.Mods + " " + prefix
 	}
+	suffix := ""
 	if m.Throws {
-		head += " throws Exception"
+		suffix = " throws Exception"
 	}
 	switch m.Kind {
 	case "abstract":
-		t.DeclLine = w.ln(depth, head+";")
-		t.CloseLine = t.DeclLine
+		t.DeclLine = w.signature(depth, prefix, params, suffix, m.WrapParams, ";")
+		t.CloseLine = w.next - 1
 		return t
 	case "getter", "setter":
 		stmt := "return n0;"
 		if m.Kind == "setter" {
 			stmt = "this.n0 = p0;"
 		}
+		head := prefix + "(" + strings.Join(params, ", ") + ")" + suffix
 		if m.OneLine {
 			t.DeclLine = w.ln(depth, head+" { "+stmt+" }")
 			t.CloseLine = t.DeclLine
@@ -376,6 +461,20 @@ func (w *jw) method(depth int, m Method, inInterface bool) methodTruth {
 		t.CloseLine = w.ln(depth, "}")
 		return t
 	}
+	if m.OneLine && len(m.Body) == 0 {
+		// an ordinary method with an empty body, written on one line
+		body := " { }"
+		if ret != "void" {
+			body = " { return " + defaultValue(ret) + "; }"
+		}
+		t.DeclLine = w.signature(depth, prefix, params, suffix, m.WrapParams, body)
+		t.CloseLine = w.next - 1
+		return t
+	}
+	tail := " {"
+	if m.BraceNext {
+		tail = ""
+	}
 	if m.SplitHead {
 		// the declaration starts on the line of its modifiers and return type
 		first := ret
@@ -383,13 +482,12 @@ func (w *jw) method(depth int, m Method, inInterface bool) methodTruth {
 			first = m.Mods + " " + ret
 		}
 		t.DeclLine = w.ln(depth, first)
-		rest := m.Name + "(" + paramList(m.Params) + ")"
-		if m.Throws {
-			rest += " throws Exception"
-		}
-		w.openBrace(depth+2, rest, false)
+		w.signature(depth+2, m.Name, params, suffix, m.WrapParams, " {")
 	} else {
-		t.DeclLine = w.openBrace(depth, head, m.BraceNext)
+		t.DeclLine = w.signature(depth, prefix, params, suffix, m.WrapParams, tail)
+		if m.BraceNext {
+			w.ln(depth, "{")
+		}
 	}
 	for _, s := range m.Body {
 		w.stmt(depth+1, s, true, &t)
@@ -399,6 +497,15 @@ func (w *jw) method(depth int, m Method, inInterface bool) methodTruth {
 	}
 	t.CloseLine = w.ln(depth, "}")
 	return t
+}
+
+// spanOf is the distance between the line a method's declaration starts on and the line of
+// its closing brace, as the printer lays it out.
+func spanOf(m Method) int {
+	w := &jw{next: 1, unit: " "}
+	m.Doc = 0
+	t := w.method(0, m, false)
+	return t.CloseLine - t.DeclLine
 }
 
 func defaultValue(ret string) string {
@@ -468,7 +575,22 @@ func render(f File) fileTruth {
 			heritage += " implements java.io.Serializable, Comparable<" + f.Name + ">"
 		}
 	}
-	w.openBrace(0, "public "+kw+" "+f.Name+heritage, f.BraceNext)
+	vis, typeParams := "public ", ""
+	switch f.ClassMods {
+	case 1:
+		vis = ""
+	case 2:
+		if !f.Interface && !f.Abstract {
+			vis = "public final "
+		}
+	case 3:
+		w.ln(0, "@Deprecated")
+	case 4:
+		vis = "@SuppressWarnings(\"unused\") public "
+	case 5:
+		typeParams = "<T extends Comparable<T>>"
+	}
+	w.openBrace(0, vis+kw+" "+f.Name+typeParams+heritage, f.BraceNext)
 	if !f.Interface {
 		for i := 0; i < f.Fields; i++ {
 			switch i {
@@ -479,6 +601,24 @@ func render(f File) fileTruth {
 			default:
 				w.ln(1, fmt.Sprintf("protected String text%d = \"{\";", i))
 			}
+		}
+		if f.InitBlock > 0 {
+			// an initialiser block is no method: its length, ifs and tall condition call for nothing
+			if f.InitBlock == 1 {
+				w.ln(1, "static {")
+			} else {
+				w.ln(1, "{")
+			}
+			w.ln(2, "int n0 = 0;")
+			scrap := &methodTruth{}
+			w.stmt(2, Stmt{Kind: "if", H: 5, Compact: true}, false, scrap)
+			for i := 0; i < 9; i++ {
+				w.stmt(2, Stmt{Kind: "if", H: 1, Compact: true}, false, scrap)
+			}
+			for i := 0; i < 24; i++ {
+				w.ln(2, fmt.Sprintf("n0 += %d;", i))
+			}
+			w.ln(1, "}")
 		}
 		if f.Constructor > 0 {
 			for i := 0; i < f.BlankLines; i++ {
@@ -501,11 +641,21 @@ func render(f File) fileTruth {
 	}
 	w.ln(0, "}")
 	t.Text = w.sb.String()
+	if f.CRLF {
+		t.Text = strings.ReplaceAll(t.Text, "\n", "\r\n")
+	}
 	return t
 }
 
 // ---------------------------------------------------------------------------------------
 // expected findings
+
+// generator features tied to defects found while widening (see notes/proposed/C10-*.patch):
+// they are switched off when known_findings.json lists them as known.
+const (
+	varargsFeature       = "varargs_parameter"
+	interfaceBodyFeature = "interface_method_with_body"
+)
 
 const (
 	kLongMethod = "longMethod"
@@ -867,17 +1017,46 @@ func judgeAPI(root string, truths []fileTruth, ignores [][]string, sortToo bool)
 			}
 		}
 	}
+	if len(ignores) > 0 {
+		// the sequence "a call with an ignore list, then a call without": the option of one call
+		// must not leak into the next call on the same analysis
+		var again []bs_domain.BadSmellModel
+		if p := pbt.Call(func() { quiet(func() { again = app.IdentifyBadSmell(nodes, nil) }) }); p != "" {
+			return "IdentifyBadSmell(nil) after the calls with ignore lists panicked: " + p
+		}
+		if d := diff(fullKeys(base, isGraph), fullKeys(again, isGraph)); d != "" {
+			return fmt.Sprintf("IdentifyBadSmell without ignore list, called again after ignore=%v on the same analysis, differs from the first such call:\n%s", ignores[len(ignores)-1], d)
+		}
+		if d := diff(keys(want), keys(seven(again))); d != "" {
+			return fmt.Sprintf("IdentifyBadSmell without ignore list, called again after ignore=%v, differs from the findings the sources call for:\n%s", ignores[len(ignores)-1], d)
+		}
+	}
 	return ""
 }
 
-func runCLI(cwd string, dirArg string, ignore []string, sortType bool) (flat []bs_domain.BadSmellModel, grouped map[string][]bs_domain.BadSmellModel, problem string) {
+func runCLI(cwd string, dirArg string, ignore []string, sortType bool, flagStyle int) (flat []bs_domain.BadSmellModel, grouped map[string][]bs_domain.BadSmellModel, problem string) {
 	_ = os.RemoveAll(filepath.Join(cwd, "coca_reporter"))
-	args := []string{"bs", "-p", dirArg}
+	args := []string{"bs"}
+	if dirArg != "" {
+		args = append(args, "-p", dirArg)
+	}
+	opt := func(short, long, value string) {
+		switch flagStyle % 4 {
+		case 0:
+			args = append(args, short, value)
+		case 1:
+			args = append(args, short+"="+value)
+		case 2:
+			args = append(args, long, value)
+		default:
+			args = append(args, long+"="+value)
+		}
+	}
 	if len(ignore) > 0 {
-		args = append(args, "-x", strings.Join(ignore, ","))
+		opt("-x", "--ignore", strings.Join(ignore, ","))
 	}
 	if sortType {
-		args = append(args, "-s", "type")
+		opt("-s", "--sort", "type")
 	}
 	res, err := cli.Run("coca", cwd, nil, args...)
 	if err != nil {
@@ -978,6 +1157,44 @@ func classify(c Case, truths []fileTruth, want []finding, mode string) pbt.Verdi
 		if !t.HasType {
 			labels["file_without_type"] = true
 		}
+		f := c.Files[i]
+		if f.CRLF {
+			labels["crlf_line_ends"] = true
+		}
+		if f.ClassMods != 0 {
+			labels["class_header_variant"] = true
+		}
+		if f.InitBlock != 0 {
+			labels["decoy_initialiser_block"] = true
+		}
+		for j, other := range c.Files {
+			if j != i && other.Name == f.Name {
+				labels["same_class_name_in_two_directories"] = true
+			}
+		}
+		for _, m := range f.Methods {
+			if m.Varargs {
+				labels["varargs_parameter"] = true
+				if near(m.Params, 5) {
+					labels["varargs_P_near_threshold"] = true
+				}
+			}
+			if m.WrapParams != 0 && m.Params >= 2 {
+				labels["parameters_over_several_lines"] = true
+			}
+			if m.RichParams && m.Params > 0 {
+				labels["annotated_or_nested_generic_parameters"] = true
+			}
+			if (m.Kind == "normal" || m.Kind == "default" || m.Kind == "static") && m.OneLine && len(m.Body) == 0 {
+				labels["ordinary_method_on_one_line"] = true
+			}
+			if m.Kind == "default" || m.Kind == "static" {
+				labels["interface_method_with_body"] = true
+			}
+			if !isGS(m.Kind) && (strings.Contains(m.Name, "get") || strings.Contains(m.Name, "set")) {
+				labels["ordinary_name_containing_get_or_set"] = true
+			}
+		}
 		sort.Strings(vecs)
 		canon = append(canon, fmt.Sprintf("%v/%v[%s]", t.Interface, t.HasType, strings.Join(vecs, ",")))
 		for _, m := range c.Files[i].Methods {
@@ -999,8 +1216,27 @@ func classify(c Case, truths []fileTruth, want []finding, mode string) pbt.Verdi
 			if sizes[i-1] < sizes[i] {
 				labels["group_needs_reordering"] = true
 				labels["reorder_"+kind] = true
+				if len(strconv.Itoa(sizes[i-1])) != len(strconv.Itoa(sizes[i])) {
+					labels["reorder_across_digit_count"] = true
+				}
 			}
 		}
+	}
+	seenIg := map[string]bool{}
+	for _, k := range c.Ignore {
+		if seenIg[k] {
+			labels["ignore_name_twice"] = true
+		}
+		seenIg[k] = true
+		if !isSeven[k] && k != "refusedBequest" && k != "graphConnectedCall" {
+			labels["ignore_name_that_is_no_kind"] = true
+		}
+	}
+	if c.DirStyle != 0 {
+		labels[fmt.Sprintf("cli_dir_style_%d", c.DirStyle)] = true
+	}
+	if c.FlagStyle != 0 {
+		labels["cli_flag_spelling_variant"] = true
 	}
 	if len(truths) > 1 {
 		labels["files>=2"] = true
@@ -1045,6 +1281,12 @@ func countDecoys(body []Stmt, top bool, labels map[string]bool) {
 		}
 		if s.Kind == "while" && s.H >= 4 {
 			labels["decoy_tall_loop_condition"] = true
+		}
+		if s.Kind == "lambda" && s.N > 0 {
+			labels["decoy_typed_lambda_parameters"] = true
+		}
+		if s.Kind == "comment" {
+			labels["block_comment_in_body"] = true
 		}
 		switch s.Kind {
 		case "for", "foreach", "while", "do":
@@ -1096,18 +1338,27 @@ func checkCLI(c Case) pbt.Verdict {
 	defer os.RemoveAll(root)
 	src := filepath.Join(root, "src")
 	writeTree(src, truths)
-	dirArg := src
+	// how the directory is named on the command line; the report names files below it
+	cwd, dirArg, nameRoot := root, src, src
 	if c.RelDir {
-		dirArg = "src"
+		dirArg, nameRoot = "src", "src"
+	}
+	switch c.DirStyle {
+	case 1:
+		dirArg, nameRoot = "./src", "src"
+	case 2:
+		dirArg, nameRoot = "src/", "src"
+	case 3:
+		cwd, dirArg, nameRoot = src, "", "."
 	}
 	var want []finding
 	for _, t := range truths {
-		want = append(want, expectedOf(dirArg, t)...)
+		want = append(want, expectedOf(nameRoot, t)...)
 	}
 	fail := func(msg string) pbt.Verdict {
-		return pbt.Fail("%s\ncase: coca bs -p %s ignore=%v sort=%v\n%s", strings.ReplaceAll(msg, root, "<CWD>"), strings.ReplaceAll(dirArg, root, "<CWD>"), c.Ignore, c.Sort, texts(truths))
+		return pbt.Fail("%s\ncase: coca bs -p %q (dirStyle %d, flagStyle %d) ignore=%v sort=%v\n%s", strings.ReplaceAll(msg, root, "<CWD>"), strings.ReplaceAll(dirArg, root, "<CWD>"), c.DirStyle, c.FlagStyle, c.Ignore, c.Sort, texts(truths))
 	}
-	base, _, problem := runCLI(root, dirArg, nil, false)
+	base, _, problem := runCLI(cwd, dirArg, nil, false, c.FlagStyle)
 	if problem != "" {
 		return fail(problem)
 	}
@@ -1128,7 +1379,7 @@ func checkCLI(c Case) pbt.Verdict {
 			kept = append(kept, m)
 		}
 	}
-	flat, grouped, problem := runCLI(root, dirArg, c.Ignore, c.Sort)
+	flat, grouped, problem := runCLI(cwd, dirArg, c.Ignore, c.Sort, c.FlagStyle)
 	if problem != "" {
 		return fail(problem)
 	}
@@ -1379,10 +1630,14 @@ func checkSweep(sc SweepCase) pbt.Verdict {
 // generators
 
 var (
-	classNames = []string{"Order", "Invoice", "Ledger", "Parser", "Engine", "Router", "Cache", "Account", "Planner", "Widget"}
-	// ordinary method names; some share letters with get/set without being getters/setters
-	methodNames = []string{"process", "generate", "load", "send", "update", "build", "select", "handle", "apply", "gather", "merge", "serve"}
-	dirs        = []string{"", "", "core/model", "src/main/java/com/acme", "app"}
+	// class names; the last three contain "test"/"Test" without making the file a test file
+	classNames = []string{"Order", "Invoice", "Ledger", "Parser", "Engine", "Router", "Cache", "Account", "Planner", "Widget", "Contest", "LatestOrder", "TestBed"}
+	// ordinary method names; some share letters with get/set without being getters/setters,
+	// the last six contain "get"/"set" (not at the front) or are the usual companions of
+	// getters and setters in a value class
+	methodNames = []string{"process", "generate", "load", "send", "update", "build", "select", "handle", "apply", "gather", "merge", "serve",
+		"reset", "forget", "target", "offset", "toString", "hashCode"}
+	dirs = []string{"", "", "core/model", "src/main/java/com/acme", "app", "com/acme/testing", "latest"}
 	modsPool    = []string{"public", "public", "private", "protected", "", "public static", "public final", "public synchronized", "static",
 		"@Override public", "@Deprecated protected", "public <T>", "private static <K, V>"}
 	retPool = []string{"", "", "int", "String", "boolean", "List<String>", "int[]"}
@@ -1458,6 +1713,9 @@ func genContainer(t *rapid.T, depth int) Stmt {
 	}
 	kind := rapid.SampledFrom([]string{"for", "foreach", "while", "do", "try", "sync", "lambda"}).Draw(t, "container")
 	s := Stmt{Kind: kind}
+	if kind == "lambda" && rapid.Bool().Draw(t, "typedLambda") {
+		s.N = rapid.IntRange(1, 7).Draw(t, "lambdaParams")
+	}
 	if kind == "while" || kind == "do" {
 		s.H = genHeight(t, "loopH")
 		if s.H > 1 {
@@ -1481,6 +1739,9 @@ func genContainer(t *rapid.T, depth int) Stmt {
 func genStmt(t *rapid.T, depth int, top bool) Stmt {
 	switch k := rapid.IntRange(0, 9).Draw(t, "stmtKind"); {
 	case k < 2:
+		if rapid.IntRange(0, 3).Draw(t, "blockComment") == 3 {
+			return Stmt{Kind: "comment", N: rapid.IntRange(2, 5).Draw(t, "commentN")}
+		}
 		return Stmt{Kind: "fill", N: rapid.IntRange(1, 3).Draw(t, "fillN")}
 	case k < 6:
 		return genIf(t, depth)
@@ -1494,7 +1755,8 @@ func genNormalMethod(t *rapid.T, name string, big bool) Method {
 	m := Method{Kind: "normal", Name: name}
 	m.Mods = rapid.SampledFrom(modsPool).Draw(t, "mods")
 	m.Ret = rapid.SampledFrom(retPool).Draw(t, "ret")
-	m.Params = aroundOr(t, "params", []int{4, 5, 6, 7}, 0, 9, 4)
+	m.Params = aroundOr(t, "params", []int{4, 5, 6, 7}, 0, 12, 4)
+	genParamShape(t, &m)
 	m.Throws = rapid.IntRange(0, 4).Draw(t, "throws") == 4
 	m.BraceNext = rapid.IntRange(0, 3).Draw(t, "braceNext") == 3
 	m.SplitHead = !m.BraceNext && rapid.IntRange(0, 4).Draw(t, "splitHead") == 4
@@ -1502,7 +1764,12 @@ func genNormalMethod(t *rapid.T, name string, big bool) Method {
 		m.Doc = rapid.IntRange(2, 4).Draw(t, "doc")
 	}
 	if !big {
-		m.Body = []Stmt{{Kind: "fill", N: rapid.IntRange(0, 2).Draw(t, "smallBody")}}
+		n := rapid.IntRange(0, 2).Draw(t, "smallBody")
+		if n == 0 && rapid.Bool().Draw(t, "oneLine") {
+			m.OneLine = true // `void run() { }`
+			return m
+		}
+		m.Body = []Stmt{{Kind: "fill", N: n}}
 		return m
 	}
 	nIf := aroundOr(t, "ifs", []int{6, 7, 8, 9}, 0, 11, 3)
@@ -1536,14 +1803,11 @@ func genNormalMethod(t *rapid.T, name string, big bool) Method {
 	}
 	m.Body = body
 	// length: pad with filler up to a drawn target
-	used := bodyLines(m) + 1
-	if m.Ret != "" {
-		used++
-	}
-	if m.BraceNext || m.SplitHead {
-		used++
-	}
+	used := spanOf(m)
 	target := aroundOr(t, "length", []int{29, 30, 31, 32}, 1, 48, 5)
+	if rapid.IntRange(0, 11).Draw(t, "veryLong") == 11 {
+		target = rapid.IntRange(95, 104).Draw(t, "lengthLong") // sizes with two and with three digits
+	}
 	if target > used {
 		pad := target - used
 		first := rapid.IntRange(0, pad).Draw(t, "padFirst")
@@ -1560,15 +1824,29 @@ func genNormalMethod(t *rapid.T, name string, big bool) Method {
 	return m
 }
 
+// genParamShape draws how the parameter list is written; all draws shrink to the plain form.
+func genParamShape(t *rapid.T, m *Method) {
+	if m.Params >= 1 && rapid.IntRange(0, 4).Draw(t, "varargs") == 4 && !pbt.Excluded(varargsFeature) {
+		m.Varargs = true
+	}
+	if m.Params >= 2 && rapid.IntRange(0, 3).Draw(t, "wrapParams") == 3 {
+		m.WrapParams = rapid.IntRange(1, 2).Draw(t, "wrapStyle")
+	}
+	if m.Params >= 1 && rapid.IntRange(0, 5).Draw(t, "richParams") == 5 {
+		m.RichParams = true
+	}
+}
+
 func genFile(t *rapid.T, idx int, used map[string]bool) File {
 	f := File{}
 	base := rapid.SampledFrom(classNames).Draw(t, "className")
 	f.Name = base
-	for n := 2; used[f.Name]; n++ {
+	f.Dir = rapid.SampledFrom(dirs).Draw(t, "dir")
+	// the same class name may occur again in another directory of the tree, not in the same one
+	for n := 2; used[f.Dir+"/"+f.Name]; n++ {
 		f.Name = fmt.Sprintf("%s%d", base, n)
 	}
-	used[f.Name] = true
-	f.Dir = rapid.SampledFrom(dirs).Draw(t, "dir")
+	used[f.Dir+"/"+f.Name] = true
 	if rapid.IntRange(0, 3).Draw(t, "hasPackage") > 0 {
 		f.Package = "com.acme." + strings.ToLower(base)
 	}
@@ -1581,6 +1859,13 @@ func genFile(t *rapid.T, idx int, used map[string]bool) File {
 	f.Interface = rapid.IntRange(0, 5).Draw(t, "interface") == 5
 	if rapid.IntRange(0, 2).Draw(t, "hasHeritage") == 2 {
 		f.Heritage = rapid.IntRange(1, 3).Draw(t, "heritage")
+	}
+	f.CRLF = rapid.IntRange(0, 5).Draw(t, "crlf") == 5
+	if rapid.IntRange(0, 2).Draw(t, "classHeader") == 2 {
+		f.ClassMods = rapid.IntRange(1, 5).Draw(t, "classMods")
+	}
+	if !f.Interface && rapid.IntRange(0, 7).Draw(t, "initBlock") == 7 {
+		f.InitBlock = rapid.IntRange(1, 2).Draw(t, "initKind")
 	}
 
 	// shape of the method list
@@ -1607,8 +1892,19 @@ func genFile(t *rapid.T, idx int, used map[string]bool) File {
 	for k := 0; k < normal; k++ {
 		name := fmt.Sprintf("%s%d", methodNames[(k+idx)%len(methodNames)], k)
 		if f.Interface {
-			f.Methods = append(f.Methods, Method{Kind: "abstract", Name: name,
-				Ret: rapid.SampledFrom(retPool).Draw(t, "iret"), Params: aroundOr(t, "iparams", []int{4, 5, 6, 7}, 0, 9, 4)})
+			if bigBudget > 0 && rapid.IntRange(0, 3).Draw(t, "interfaceBody") == 3 && !pbt.Excluded(interfaceBodyFeature) {
+				// a default or static interface method is a method with a body like any other
+				bigBudget--
+				m := genNormalMethod(t, name, true)
+				m.Kind = rapid.SampledFrom([]string{"default", "static"}).Draw(t, "interfaceBodyKind")
+				m.Mods = rapid.SampledFrom([]string{"", "public "}).Draw(t, "interfaceBodyMods") + m.Kind
+				f.Methods = append(f.Methods, m)
+				continue
+			}
+			m := Method{Kind: "abstract", Name: name,
+				Ret: rapid.SampledFrom(retPool).Draw(t, "iret"), Params: aroundOr(t, "iparams", []int{4, 5, 6, 7}, 0, 12, 4)}
+			genParamShape(t, &m)
+			f.Methods = append(f.Methods, m)
 			continue
 		}
 		big := bigBudget > 0 && (normal <= 4 || rapid.IntRange(0, 5).Draw(t, "big") == 5)
@@ -1639,8 +1935,10 @@ func genFile(t *rapid.T, idx int, used map[string]bool) File {
 		if last := len(f.Methods) - 1; normal >= 2 && normal != 20 && f.Constructor == 0 && f.Methods[last].Kind == "normal" &&
 			rapid.IntRange(0, 7).Draw(t, "abstractClass") == 7 {
 			f.Abstract = true
-			f.Methods[len(f.Methods)-1] = Method{Kind: "abstract", Name: "planAhead", Mods: "public abstract",
-				Params: aroundOr(t, "aparams", []int{4, 5, 6, 7}, 0, 9, 5)}
+			am := Method{Kind: "abstract", Name: "planAhead", Mods: "public abstract",
+				Params: aroundOr(t, "aparams", []int{4, 5, 6, 7}, 0, 12, 5)}
+			genParamShape(t, &am)
+			f.Methods[len(f.Methods)-1] = am
 		}
 	}
 	return f
@@ -1661,8 +1959,13 @@ func genIgnore(t *rapid.T) []string {
 			ig = append(ig, k)
 		}
 	}
-	if rapid.IntRange(0, 5).Draw(t, "ignoreOther") == 5 {
-		ig = append(ig, rapid.SampledFrom([]string{"refusedBequest", "graphConnectedCall", "noSuchSmell", "longmethod"}).Draw(t, "other"))
+	if rapid.IntRange(0, 3).Draw(t, "ignoreOther") == 3 {
+		// names that are no kind: unknown ones, another spelling, parts of kind names
+		ig = append(ig, rapid.SampledFrom([]string{"refusedBequest", "graphConnectedCall", "noSuchSmell", "longmethod",
+			"Class", "long", "Method", "Element", "complex", "dataClasses"}).Draw(t, "other"))
+	}
+	if len(ig) > 0 && rapid.IntRange(0, 5).Draw(t, "ignoreTwice") == 5 {
+		ig = append(ig, ig[0]) // a kind named twice
 	}
 	return ig
 }
@@ -1694,8 +1997,11 @@ func genSortCase(t *rapid.T) Case {
 			k := rapid.IntRange(1, 3).Draw(t, "longMethods")
 			for j := 0; j < k; j++ {
 				l := rapid.IntRange(29, 40).Draw(t, "longL")
-				p := rapid.IntRange(4, 9).Draw(t, "longP")
-				i8 := rapid.SampledFrom([]int{0, 7, 8, 9, 10}).Draw(t, "longI")
+				if rapid.IntRange(0, 3).Draw(t, "veryLong") == 3 {
+					l = rapid.IntRange(96, 103).Draw(t, "longL3") // group sizes with two and with three digits
+				}
+				p := rapid.IntRange(4, 12).Draw(t, "longP")
+				i8 := rapid.SampledFrom([]int{0, 7, 8, 9, 10, 11}).Draw(t, "longI")
 				s8 := rapid.SampledFrom([]int{0, 0, 8, 9}).Draw(t, "longS")
 				for i8+s8+2 > l-1 {
 					l++
@@ -1736,6 +2042,12 @@ func genSortCase(t *rapid.T) Case {
 	}
 	c.Ignore = genIgnore(t)
 	c.RelDir = rapid.Bool().Draw(t, "relDir")
+	if rapid.IntRange(0, 2).Draw(t, "otherDirStyle") == 2 {
+		c.DirStyle = rapid.IntRange(1, 3).Draw(t, "dirStyle")
+	}
+	if rapid.IntRange(0, 2).Draw(t, "otherFlagStyle") == 2 {
+		c.FlagStyle = rapid.IntRange(1, 3).Draw(t, "flagStyle")
+	}
 	return c
 }
 
